@@ -17,7 +17,7 @@ func init() {
 		Rules: []*Rule{
 			{ID: "C06.size-count", Floor: 11, Clause: "PushFront/PushBack/InsertBefore/InsertAfter increment size exactly once on every path, Remove decrements exactly once, no other method touches it; Clear stores nil, nil, 0",
 				Run: ruleListSize},
-			{ID: "C06.value-untouched", Floor: 5, Clause: "Node.Value is stored only in the composite literal of the four constructors (with the value parameter); no other function allocates a Node",
+			{ID: "C06.value-untouched", Floor: 3, Clause: "Node.Value is stored only in the composite literal of the four constructors (with the value parameter); no other function allocates a Node",
 				Run: ruleListValue},
 			{ID: "C06.removed-node-isolated", Floor: 2, Clause: "every path through Remove unlinks the node and then stores nil to node.prev and node.next",
 				Run: ruleListRemove},
@@ -95,6 +95,22 @@ func ruleListSize(c *Ctx, r *R) {
 
 func ruleListValue(c *Ctx, r *R) {
 	ctors := map[string]bool{"PushFront": true, "PushBack": true, "InsertBefore": true, "InsertAfter": true}
+	// an unexported helper all of whose call sites are in the four constructors (newNode)
+	ctorHelper := func(fn *ssa.Function) bool {
+		if token.IsExported(fn.Name()) || fn.Parent() != nil {
+			return false
+		}
+		sites := callSitesOf(c, fn)
+		if len(sites) == 0 {
+			return false
+		}
+		for _, s := range sites {
+			if !ctors[s.Parent().Name()] {
+				return false
+			}
+		}
+		return true
+	}
 	for _, fn := range c.funcsOfPkg("container/xlist") {
 		name := c.nameOf(fn)
 		short := fn.Name()
@@ -102,7 +118,7 @@ func ruleListValue(c *Ctx, r *R) {
 			switch x := in.(type) {
 			case *ssa.Alloc:
 				if isNamedType(x.Type(), "container/xlist", "Node") {
-					r.ok(ctors[short], name+"|allocates-node", x.Pos(), "only the four constructors may create nodes (handles keep their identity)")
+					r.ok(ctors[short] || ctorHelper(fn), name+"|allocates-node", x.Pos(), "only the four constructors (or a helper only they call) may create nodes (handles keep their identity)")
 				}
 			case *ssa.Store:
 				if fa, ok := x.Addr.(*ssa.FieldAddr); ok && fieldName(fa.X.Type(), fa.Field) == "Value" && isNamedType(fa.X.Type(), "container/xlist", "Node") {
@@ -113,7 +129,7 @@ func ruleListValue(c *Ctx, r *R) {
 							isParam = true
 						}
 					}
-					r.ok(ctors[short] && fresh && isParam, name+"|stores-value", x.Pos(), "Node.Value is user-controlled: it may be written only when a constructor initialises a fresh node with the caller's value")
+					r.ok((ctors[short] || ctorHelper(fn)) && fresh && isParam, name+"|stores-value", x.Pos(), "Node.Value is user-controlled: it may be written only when a constructor initialises a fresh node with the caller's value")
 				}
 			}
 		})
@@ -144,6 +160,31 @@ func ruleListRemove(c *Ctx, r *R) {
 		case *ssa.Call:
 			if cal := staticCallee(&x.Call); cal != nil && cal.Name() == "remove" && len(x.Call.Args) == 2 && x.Call.Args[1] == ssa.Value(node) {
 				return ss(q | 1), true
+			}
+			// a helper that clears the links of the node it is handed (node.detach()): stores of nil, in its entry block, to
+			// prev / next of the parameter bound to node
+			if cal := staticCallee(&x.Call); cal != nil && cal.Blocks != nil && cal.Name() != "remove" && rootFn(cal).Pkg == fn.Pkg && q&1 != 0 {
+				nq := q
+				for k, a := range x.Call.Args {
+					if a != ssa.Value(node) || k >= len(cal.Params) {
+						continue
+					}
+					for _, in2 := range cal.Blocks[0].Instrs {
+						if st, ok := in2.(*ssa.Store); ok && isNilConst(st.Val) {
+							if fa, ok := st.Addr.(*ssa.FieldAddr); ok && fa.X == ssa.Value(cal.Params[k]) {
+								switch fieldName(fa.X.Type(), fa.Field) {
+								case "prev":
+									nq |= 2
+								case "next":
+									nq |= 4
+								}
+							}
+						}
+					}
+				}
+				if nq != q {
+					return ss(nq), true
+				}
 			}
 		case *ssa.Store:
 			if fa, ok := x.Addr.(*ssa.FieldAddr); ok && fa.X == ssa.Value(node) && isNilConst(x.Val) && q&1 != 0 {
